@@ -15,6 +15,8 @@ U6W = ("u6_writer_step", {})
 U8 = ("u8_writer_tail", {})
 U9 = ("u9_selftest", {})
 U11 = ("u11_text_safety", {})
+U12M = ("u12_text_trace", {"which": "mapper"})
+U12C = ("u12_text_trace", {"which": "cache"})
 U3 = ("u3_interpretation", {})
 U4 = ("u4_cache_parse", {})
 U7 = ("u7_metadata", {})
@@ -105,6 +107,22 @@ PROPS = {
         "assumed": ["same std contracts as C05"],
         "not_decided": ["records(A + newline + B) == records(A) ++ records(B) as an equation"],
         "design_ref": "DESIGN.md 5/C06",
+    },
+    "C07": {
+        "title": "Text trace remapping rewrites known lines and passes everything else through",
+        "units": [U12M, U12C],
+        "kani": [],
+        "technique": "Verus contract on remap_stacktrace (both copies) and on format_throwable / format_frames / format_cause: the returned text equals the in-order concatenation of one specified output per input line",
+        "level_text": "Proof, for every input text and every mapping, that remap_stacktrace succeeds and returns out_upto(self, lines(input), #lines): per line, the "
+                      "remapped throwable (first line / behind `Caused by: `) when its class is known, one four-space-indented line per remapped frame when the frame "
+                      "line resolves, the input line otherwise -- nothing dropped, duplicated or reordered; plus the lemma that a mapping knowing none of the classes "
+                      "yields the line-normalised input. The line classifiers and the Display impls are abstract functions; std's lines/writeln!/Peekable are assumed contracts.",
+        "assumed": ["parse_throwable / parse_frame are abstract (uninterpreted functions of the line); what counts as a throwable or frame line is not decided here",
+                    "Display impls of Throwable / StackFrame are abstract (display_of); `{}` of a &str prints the string",
+                    "contracts/text_trace_model.rs: writeln! into a fmt::Write sink appends prefix + rendering + newline and does not fail; str::lines / Lines::next / Peekable restated over ghost sequences",
+                    "remap_frame's iterator yields pending_frames(self, frame) (its relation to the retrace spec is proved in u1/u2); remap_class abstract (u1/u2)",
+                    "`lines_of(input)` (how std splits the text into lines, incl. CRLF handling) is uninterpreted"],
+        "design_ref": "DESIGN.md 5/C07",
     },
     "C08": {
         "title": "Typed stack-trace remapping keeps every element",
@@ -217,7 +235,6 @@ PROPS = {
 }
 
 NOT_APPLICABLE = {
-    "C07": "text trace remapping is str::lines/splitn/split_once + writeln!/Display: Verus has no core::fmt or Pattern support and Kani does not finish on 6 symbolic bytes through str APIs (measured); no contract within reach expresses the line-by-line concatenation",
     "C14": "quantifies over processes, hash seeds and threads; determinism would only follow from a functional contract on ProguardCache::write whose collection loop (HashMap/HashSet/BTreeMap entry API) is out of reach of both verifiers",
     "C16": "descriptor tokenizer/renderers are char_indices/rsplit_once/format! code rejected by the Verus front end; Kani does not finish on 6 symbolic bytes (measured)",
     "C17": "Display impls and str-pattern parsers only (same reach limits as C07)",
